@@ -947,7 +947,10 @@ class NetConnections:
                     if filter_pid is not None and filter_pid != pid:
                         continue
                     else:
-                        path = tokens[-1] if len(tokens) == 8 else ''
+                        # the path is the last field and may contain
+                        # spaces
+                        fields = line.rstrip('\n').split(None, 7)
+                        path = fields[7] if len(fields) == 8 else ''
                         type_ = _common.socktype_to_enum(int(type_))
                         # XXX: determining the remote endpoint of a
                         # UNIX socket on Linux is not possible, see:
